@@ -30,6 +30,12 @@ FEATURES = ["safe_stack", "safe_active_fiber", "safe_class_lookup", "safe_vm_opc
 PROFILES = ["expr", "control", "closures", "classes", "exceptions", "fibers", "iteration", "data", "alloc", "typed", "typed-try"]
 
 
+# load_fiber / unload_fiber translated from vm.rs on every run: rejections leave the state untouched, hand-over values, the caller link, both
+# designators of the running fiber, and every third fiber untouched, proved of the translated bodies (Props/FnsTie/FiberSwitch)
+THEOREM_MODULES.append("Yarel.Props.FnsTie.FiberSwitch")
+REQUIRED_THEOREMS += ['load_effect', 'load_designators_agree', 'unload_effect', 'unload_designators_agree']
+
+
 def stack_fill_program(per_level, innermost, depth=62):
     """Fills the value stack of the main fiber almost to its end: `depth`+1 nested calls, each holding `per_level` pending operands
     (`1 + (1 + ( … f(n - 1))))`), the innermost `innermost` ones.  With 262 / 11 the 16384 slots are used exactly (the last free slot is
